@@ -62,6 +62,7 @@ def gen_cfg(rng, i):
         if rng.random() < 0.7:
             include = sorted(set(include) | {rng.choice(mixin_exclude)})
     return dict(cols=cols, exclude=exclude, include=include, mixin_exclude=mixin_exclude,
+                sti_below=(inherit == 'joined' and rng.random() < 0.5),
                 strategy=rng.choice(['validity', 'subquery']), tracker=rng.random() < 0.4,
                 names=(['tx_id', 'end_tx_id', 'op_type'] if custom else ['transaction_id', 'end_transaction_id', 'operation_type']),
                 names_level=names_level,
@@ -154,6 +155,11 @@ def make_build(cfg):
             env.target = type('M', (P,), attrs)
             env.parent_table = env.target.__table__
             env.others = [P]
+            if cfg.get('sti_below'):
+                # a single-table subclass BELOW the joined child: its column lives in the child's table
+                S = type('S', (env.target,), {'__mapper_args__': {'polymorphic_identity': 's'}, '__versioned__': dict(vo),
+                                              'extra': sa.Column(sa.Integer)})
+                env.others = [P, S]
         elif cfg['inherit'] == 'assoc':
             # the configured columns make up a many-to-many association TABLE (no model): its own key columns, the
             # random payload columns and two NOT NULL reference columns; it is versioned through the relationship
@@ -191,6 +197,9 @@ def effective_cols(cfg):
     if cfg['inherit'] == 'joined':
         pk = [c for c in cols if c['pk']][0]
         cols = [dict(pk, name='id', key='id', autoinc=False, fk=True)] + [c for c in cols if not c['pk']]
+        if cfg.get('sti_below'):
+            cols = cols + [dict(name='extra', key='extra', type='Integer', pk=False, nullable=True, unique=False, index=False,
+                                autoinc=False, default=False, sdefault=False, onupdate=False, fk=False)]
     elif cfg['inherit'] == 'single':
         cols = ([dict(name='kind', key='kind', type='Unicode', pk=False, nullable=True, unique=False, index=False,
                       autoinc=False, default=False, sdefault=False, onupdate=False, fk=False)] + cols +
@@ -242,6 +251,13 @@ def _observe(cfg):
             elif cfg['inherit'] == 'joined':
                 pvt = sc.version_class(env.others[0]).__table__
                 shape_ok = pvt is not vt and cfg['names'][0] in pvt.c and cfg['names'][0] in vt.c
+                # the parent's version table holds the parent's columns, the internal ones and (tracker) the flag of
+                # its own non-key column - nothing that belongs to another table of the hierarchy
+                want = {'id', 'kind', cfg['names'][0], cfg['names'][2]} | ({cfg['names'][1]} if cfg['strategy'] == 'validity' else set()) \
+                    | ({'kind_mod'} if cfg['tracker'] else set())
+                shape_ok = shape_ok and {c.name for c in pvt.c} == want
+                if cfg.get('sti_below'):
+                    shape_ok = shape_ok and sc.version_class(env.others[1]).__table__ is vt
             # NULL-filled round trip
             conn = env.connection
             row = {}
